@@ -40,6 +40,8 @@ Step(e) ==
   \/ /\ e.op = "commit0" /\ NoPanic(e) /\ CommitZero /\ StOk(e)
   \/ /\ e.op = "dropw" /\ DropW /\ StOk(e)
   \/ /\ e.op = "commit_refused" /\ e.accepted = FALSE /\ CommitRefused(e.n) /\ StOk(e)
+  \* filling more than the window holds is refused; nothing changes (the window is gone)
+  \/ /\ e.op = "fill_refused" /\ e.accepted = FALSE /\ DropW /\ StOk(e)
   \/ /\ e.op = "acqr" /\ NoPanic(e) /\ AcqR
      /\ rwin'[1] = e.start /\ rwin'[2] = e.len /\ e.rlen = e.len
      /\ RunsOk(e.runs, rwin'[3])
